@@ -289,7 +289,7 @@ def run(ctx):
                 ('d3_trim', [20222, 30222, 40320, 20312, 20122], 3, 1, 1, c, 'C11Ops', 2),
                 ('big_d2', [11820, 21822, 31821], 2, 1, 1, cbig, 'RowOps', 2)]
     else:
-        runs = [('size1_d2', [20122, 20312, 30321, 20111, 10110, 40420, 50222], 2, 1, 1, c, 'C11Ops', 2),
+        runs = [('size1_d2', [20122, 20312, 30321, 20111, 10110, 40420], 2, 1, 1, c, 'C11Ops', 2),
                 ('d2_full', [40322, 30322, 20223], 2, 2, 4, c, 'C11Ops', 2),
                 ('d3_trim', [20222], 3, 1, 12, c, 'C11Ops', 2),
                 ('big_d2', [11820, 21822], 2, 1, 1, cbig, 'RowOps', 2)]
